@@ -36,6 +36,9 @@ pub struct World {
     pub nodes: Vec<NodeData>,
     /// the single-node oracle: one context over node 0's files in write order
     pub single: ExecutionContext,
+    /// the same rows registered in memory, one batch per table: the arbiter that tells a
+    /// defect of the single-node Parquet path (C04's subject) from one of the cluster
+    pub mem: ExecutionContext,
 }
 
 impl Drop for World {
@@ -130,7 +133,11 @@ pub fn build(rng: &mut Rng, p: &WorldParams) -> World {
         }
         nodes.push(NodeData { files: files_here, ctx: Arc::new(ctx), address: format!("10.7.0.{}:7777", n + 1), node_id: n as u64 });
     }
-    World { root, tables, layouts, nodes, single }
+    let mut mem = ExecutionContext::with_config(make_config());
+    for t in &tables {
+        mem.register_table(&t.name, t.schema(), t.one_batch());
+    }
+    World { root, tables, layouts, nodes, single, mem }
 }
 
 impl World {
